@@ -107,6 +107,11 @@ func (e *ddEngine) keyOf(s *ddState, v ssa.Value) string {
 			}
 		}
 		switch x := v.(type) {
+		case *ssa.Phi:
+			// the value that flowed in on this path
+			if a := e.value(s, v); a.k == kSym && a.sym != nil && a.sym != v {
+				return rec(a.sym, d+1)
+			}
 		case *ssa.BinOp:
 			return "(" + rec(x.X, d+1) + " " + x.Op.String() + " " + rec(x.Y, d+1) + ")"
 		case *ssa.UnOp:
